@@ -69,14 +69,24 @@ func (e *event) coq() string {
 }
 
 type node struct {
-	c        *cluster
-	id       uint64
-	st       *store.Store
-	peer     *peer.Peer
-	sm       *regSM
-	up       bool
+	c    *cluster
+	id   uint64
+	st   *store.Store
+	peer *peer.Peer
+	sm   *regSM // survives restarts, like the DB behind the real applier
+	up   bool
+	inc  *incarn
+}
+
+// incarn is one process lifetime of a store. A restart stands for a process
+// crash: whatever goroutines of the old store.Store object are still around
+// must not be observed any more (dead), and must not touch the state machine.
+type incarn struct {
+	n        *node
+	dead     bool                        // guarded by cluster.mu
 	reads    map[*pb.RaftCmdRequest]bool // requests announced by the read observer
 	lastAppl *event
+	peer     *peer.Peer
 }
 
 type opState struct {
@@ -119,7 +129,7 @@ var quietLogger = &myraft.DefaultLogger{Logger: log.New(io.Discard, "", 0)}
 func newCluster(dir string) (*cluster, error) {
 	c := &cluster{dir: dir, stats: map[string]int{}, terms: map[uint64]uint64{}}
 	for id := uint64(1); id <= 3; id++ {
-		n := &node{c: c, id: id, sm: newRegSM(), reads: map[*pb.RaftCmdRequest]bool{}}
+		n := &node{c: c, id: id, sm: newRegSM()}
 		c.nodes[id] = n
 		if err := n.start(); err != nil {
 			return nil, err
@@ -130,8 +140,10 @@ func newCluster(dir string) (*cluster, error) {
 
 func (n *node) start() error {
 	c := n.c
-	n.st = store.NewStoreWithConfig(store.Config{StoreID: n.id, CommandApplier: n.apply, CommandTimeout: 60 * time.Second})
-	n.st.VerifObserve(n.onApply, n.onRead)
+	in := &incarn{n: n, reads: map[*pb.RaftCmdRequest]bool{}}
+	n.inc = in
+	n.st = store.NewStoreWithConfig(store.Config{StoreID: n.id, CommandApplier: in.apply, CommandTimeout: 60 * time.Second})
+	n.st.VerifObserve(in.onApply, func(ev store.VerifReadEvent) { in.onRead(ev, n.peerOf(in)) })
 	region := manifest.RegionMeta{
 		ID:    regionID,
 		Epoch: manifest.RegionEpoch{Version: 1, ConfVersion: 1},
@@ -150,22 +162,27 @@ func (n *node) start() error {
 		return err
 	}
 	n.peer = p
+	in.peer = p
 	n.up = true
 	return nil
 }
 
 // apply is Config.CommandApplier of the store.
-func (n *node) apply(req *pb.RaftCmdRequest) (*pb.RaftCmdResponse, error) {
+func (in *incarn) apply(req *pb.RaftCmdRequest) (*pb.RaftCmdResponse, error) {
 	spec, ok := parseReq(req)
 	if !ok {
 		return nil, fmt.Errorf("harness: unknown command")
 	}
+	n := in.n
 	c := n.c
 	c.mu.Lock()
 	defer c.mu.Unlock()
+	if in.dead {
+		return nil, fmt.Errorf("harness: store process is gone")
+	}
 	a, err := n.sm.exec(spec)
-	if n.reads[req] {
-		delete(n.reads, req)
+	if in.reads[req] {
+		delete(in.reads, req)
 		ev := &event{kind: "exec", s: n.id, w: spec.UID}
 		if err == nil {
 			ev.ans = &a
@@ -177,7 +194,7 @@ func (n *node) apply(req *pb.RaftCmdRequest) (*pb.RaftCmdResponse, error) {
 			ev.ans = &a
 		}
 		c.log(ev)
-		n.lastAppl = ev
+		in.lastAppl = ev
 	}
 	if err != nil {
 		return nil, err
@@ -185,23 +202,27 @@ func (n *node) apply(req *pb.RaftCmdRequest) (*pb.RaftCmdResponse, error) {
 	return buildResp(req, a), nil
 }
 
-func (n *node) onApply(ev store.VerifApplyEvent) {
-	c := n.c
+func (in *incarn) onApply(ev store.VerifApplyEvent) {
+	c := in.n.c
 	c.mu.Lock()
 	defer c.mu.Unlock()
-	if e := n.lastAppl; e != nil {
+	if e := in.lastAppl; e != nil {
 		e.index, e.eterm, e.reqid = ev.Index, ev.Term, ev.RequestID
-		n.lastAppl = nil
+		in.lastAppl = nil
 	}
 }
 
-func (n *node) onRead(ev store.VerifReadEvent) {
-	mark := n.peer.VerifAppliedMark()
+func (in *incarn) onRead(ev store.VerifReadEvent, p *peer.Peer) {
+	mark := p.VerifAppliedMark()
 	spec, _ := parseReq(ev.Req)
+	n := in.n
 	c := n.c
 	c.mu.Lock()
 	defer c.mu.Unlock()
-	n.reads[ev.Req] = true
+	if in.dead {
+		return
+	}
+	in.reads[ev.Req] = true
 	c.log(&event{kind: "serve", s: n.id, w: spec.UID, ridx: ev.ReadIndex, mark: mark})
 }
 
@@ -258,13 +279,14 @@ func (c *cluster) call(n *node, spec cmdSpec, read bool) {
 	c.mu.Unlock()
 	req := buildReq(spec, regionID)
 	var early string
+	in, st0 := n.inc, n.st
 	go func() {
 		var resp *pb.RaftCmdResponse
 		var err error
 		if read {
-			resp, err = n.st.ReadCommand(req)
+			resp, err = st0.ReadCommand(req)
 		} else {
-			resp, err = n.st.ProposeCommand(req)
+			resp, err = st0.ProposeCommand(req)
 		}
 		r := &event{kind: "ret", w: spec.UID, robs: "RoErr"}
 		if err == nil {
@@ -284,6 +306,10 @@ func (c *cluster) call(n *node, spec cmdSpec, read bool) {
 			}
 		}
 		c.mu.Lock()
+		if in.dead && op.ok {
+			// the process died before the client got its answer
+			r.robs, op.ok = "RoErr", false
+		}
 		c.log(r)
 		c.mu.Unlock()
 		close(op.done)
@@ -294,6 +320,9 @@ func (c *cluster) call(n *node, spec cmdSpec, read bool) {
 		case <-op.done:
 			if early != "" {
 				ev.pobs = early
+			} else if !op.ok {
+				ev.pobs = "PoDropped"
+				c.stats["calls_refused_by_raft"]++
 			}
 			return
 		default:
@@ -361,14 +390,18 @@ func (c *cluster) pump(max int) {
 
 func (c *cluster) restart(n *node) error {
 	n.up = false
+	c.mu.Lock()
+	n.inc.dead = true
+	c.log(&event{kind: "start", s: n.id})
+	c.mu.Unlock()
 	n.st.StopPeer(n.id)
 	n.st.Close()
-	c.mu.Lock()
-	c.log(&event{kind: "start", s: n.id})
-	n.lastAppl = nil
-	c.mu.Unlock()
 	return n.start()
 }
+
+// peerOf returns the peer of incarnation in (the read observer runs on client
+// goroutines, possibly while the node is being restarted).
+func (n *node) peerOf(in *incarn) *peer.Peer { return in.peer }
 
 func (c *cluster) pendingOps() int {
 	k := 0
